@@ -726,6 +726,12 @@ func c11CompiledIndex(c refsem.Val, i, j int) (sig, detail string) {
 		"c[" + I + ":" + J + "] == c[0:" + J + "][" + I + ":ar(" + J + ")]",
 		"c[ar(" + I + ")]",
 		"1 * 2 + #[c[ar(" + I + ")]]",
+		// a view of c (possibly empty, possibly with elements of c behind its end) extended twice: neither c nor the first result may change
+		"v = c[" + I + ":" + J + "]",
+		"p = v + c[0:1]",
+		"q = v + c[0:2]",
+		"[p, q, v]",
+		"c[0:" + I + "] + c[" + I + ":ln(c)] == c",
 		"c",
 	}
 	o := sess.Compare(stmts, sess.Options{KeepGoing: true})
